@@ -59,10 +59,14 @@ def make_arg(a):
     return {"none": None, "str": "ab", "int": 5, "float": 2.5, "viewport": vp()}[k]
 
 
-def call_param(p, arg):
-    """construct the object with `arg` in the place of parameter p; returns (object, encoder or None)"""
+def call_param(p, arg, p2=None, arg2=None):
+    """construct the object with `arg` in the place of parameter p (and arg2 in the place of p2);
+    returns (object, encoder or None)"""
     g = dict(volume=np.ones(3, "<f4"), rotationMatrix=np.eye(3, dtype="<f4"), translationVector=np.zeros(3, "<f4"))
     ctor, name = p.split("_", 1)
+    name2 = p2.split("_", 1)[1] if p2 else None
+    if name2 is not None:
+        g[name2] = arg2
     if ctor == "Data3D":
         g[name] = arg
         o = Data3D(100, 2, g["volume"], g["rotationMatrix"], g["translationVector"])
@@ -73,13 +77,15 @@ def call_param(p, arg):
         return o, o
     if ctor == "Calib":
         g[name] = arg
-        o = CalibrationDataBlock(DistorsionModel.noDistorsion, g["volume"] if name != "size" else arg, g["rotationMatrix"],
+        o = CalibrationDataBlock(DistorsionModel.noDistorsion, g.get("size", g["volume"]), g["rotationMatrix"],
                                  g["translationVector"], np.array([], "<i2"), [], CalibrationDataBlockFormat.Seelab1)
         return o, o
     if ctor == "Seelab":
         kw = dict(rotation_matrix=np.eye(3), translation_vector=np.zeros(3), focus=np.ones(2), optical_center=np.ones(2),
                   radial_distortion=np.zeros(2), decentering=np.zeros(2), thin_prism=np.zeros(2), view_port=vp())
         kw[name] = arg
+        if name2 is not None:
+            kw[name2] = arg2
         o = SeelabCameraData(**kw)
         return o, o
     if ctor == "BTS":
@@ -112,13 +118,18 @@ def evaluate(v):
     try:
         if q["t"] == "param":
             obj, _ = call_param(q["p"], make_arg(q["a"]))
+        elif q["t"] == "pair":
+            a1, a2 = (np.arange(int(np.prod(sh)) if sh else 1, dtype="<f4").reshape(sh) if sh else np.array(1, "<f4")
+                      for sh in q["s"])
+            obj, _ = call_param(q["p"], a1, q["p2"], a2)
         elif q["t"] == "coupled":
             arrs = [np.zeros(s, "<f4") if s else np.array(0.0, "<f4") for s in q["s"]]
             obj = ForceTorqueTrack("t", *arrs)
         else:
             k, n = q["v"]["k"], q["v"]["n"]
             vals = {"list": [1.0] * n, "tuple": (1.0,) * n, "ndarray_f4": np.ones(n, "<f4"), "ndarray_f8": np.ones(n, "<f8"),
-                    "none": None, "int": 3, "float": 1.5}[k]
+                    "none": None, "int": 3, "float": 1.5, "ndarray0_f4": np.array(2.0, "<f4"), "ndarray0_f8": np.array(2.0),
+                    "npscalar": np.float32(2.0)}[k]
             obj = Event("e", vals, EventsDataType.singleEvent if q["single"] else EventsDataType.eventSequence)
         accepted = True
     except Exception:  # noqa: BLE001
